@@ -479,8 +479,11 @@ func parentMain(c *Check, tier string, jobs int) int {
 			okN := 0
 			for i := 0; i < 5; i++ {
 				got, _ := replayInSubprocess(c, f.Case)
-				if got == s {
-					okN++
+				for _, g := range strings.Split(got, "\x1f") {
+					if g == s {
+						okN++
+						break
+					}
 				}
 			}
 			if okN != 5 {
@@ -702,7 +705,10 @@ func replayInSubprocess(c *Check, cs json.RawMessage) (string, string) {
 	sig := ""
 	for _, l := range strings.Split(s, "\n") {
 		if strings.HasPrefix(l, "REPLAY-SIG: ") {
-			sig = strings.TrimPrefix(l, "REPLAY-SIG: ")
+			if sig != "" {
+				sig += "\x1f"
+			}
+			sig += strings.TrimPrefix(l, "REPLAY-SIG: ")
 		}
 	}
 	if sig == "" && !strings.Contains(s, "REPLAY-PASS") && c.DiedSig != nil {
@@ -738,7 +744,10 @@ func replayMain(c *Check, path string) int {
 		fmt.Println("REPLAY-PASS")
 		return 0
 	}
-	fmt.Println("REPLAY-SIG: " + sig)
+	// a case may produce several findings (joined by \x1f)
+	for _, one := range strings.Split(sig, "\x1f") {
+		fmt.Println("REPLAY-SIG: " + one)
+	}
 	return 1
 }
 
